@@ -1,9 +1,18 @@
 package quic
 
-// [UQUIC] SetConnectionIDLimit was previously used to set a custom active connection ID
-// limit on the connIDManager. In quic-go v0.59.1, the connIDManager no longer stores
-// this limit — it is enforced via protocol.MaxActiveConnectionIDs and the peer's
-// transport parameters. This function is kept as a no-op for API compatibility;
-// the ActiveConnectionIDLimit value in the transport parameters already controls
-// how many connection IDs the server will send us.
-func (h *connIDManager) SetConnectionIDLimit(_ uint64) {}
+import "github.com/refraction-networking/uquic/internal/protocol"
+
+// [UQUIC] SetConnectionIDLimit tells the connIDManager which active_connection_id_limit this
+// endpoint advertised. A QUICSpec can advertise a limit other than
+// protocol.MaxActiveConnectionIDs (Firefox advertises 8); the peer is then entitled to issue
+// that many connection IDs, so the limit enforced on incoming NEW_CONNECTION_ID frames has
+// to be the advertised one. Without a call (or with 0) the default applies.
+func (h *connIDManager) SetConnectionIDLimit(limit uint64) { h.connIDLimit = limit }
+
+// connectionIDLimit is the number of connection IDs the peer may keep active at this endpoint.
+func (h *connIDManager) connectionIDLimit() uint64 {
+	if h.connIDLimit != 0 {
+		return h.connIDLimit
+	}
+	return protocol.MaxActiveConnectionIDs
+}
